@@ -9,6 +9,7 @@ import (
 	"fmt"
 	"os"
 	"path/filepath"
+	"strings"
 	"sync"
 	"time"
 
@@ -30,18 +31,47 @@ const opTimeout = 5 * time.Second
 // trimming rounds on it (kv.VerifTrimNotifications) without going through the controller.
 type recFactory struct {
 	kv.Factory
-	mu    sync.Mutex
-	store kv.KV
+	mu       sync.Mutex
+	store    kv.KV  // the raw store
+	scanHook func() // one-shot, run when the controller starts the NEXT range scan over the notification keys
 }
 
 func (f *recFactory) NewKV(ns string, shard int64) (kv.KV, error) {
 	s, err := f.Factory.NewKV(ns, shard)
-	if err == nil {
-		f.mu.Lock()
-		f.store = s
-		f.mu.Unlock()
+	if err != nil {
+		return s, err
 	}
-	return s, err
+	f.mu.Lock()
+	f.store = s
+	f.mu.Unlock()
+	return &scanGateKV{KV: s, f: f}, nil
+}
+
+func (f *recFactory) armScan(h func()) {
+	f.mu.Lock()
+	f.scanHook = h
+	f.mu.Unlock()
+}
+
+// scanGateKV is the store the controller works on: a pass-through, except that the harness can run something
+// right before a RangeScan over "__oxia/notifications/" starts - the scan of notificationsTracker.
+// ReadNextNotifications, i.e. the point after waitForNotifications has returned.
+type scanGateKV struct {
+	kv.KV
+	f *recFactory
+}
+
+func (g *scanGateKV) RangeScan(lower, upper string) (kv.KeyValueIterator, error) {
+	if strings.HasPrefix(lower, notifPrefix) {
+		g.f.mu.Lock()
+		h := g.f.scanHook
+		g.f.scanHook = nil
+		g.f.mu.Unlock()
+		if h != nil {
+			h()
+		}
+	}
+	return g.KV.RangeScan(lower, upper)
 }
 
 // ---- in-process follower for the rf=2 scenario: appends are acknowledged only when the harness says so
